@@ -76,6 +76,14 @@ Theorem C27_attr_get_after_load : forall s, valid s = true -> forall cur real, f
 Proof. exact attr_get_loaded_refines. Qed.
 Print Assumptions C27_attr_get_after_load.
 
+(* select(x for x in E if x.attr ...) where attr is declared by a subclass C of E (or by E): exactly the stored objects of C and its
+   subclasses that satisfy the condition *)
+Theorem C27_subclass_attribute_query : forall s, valid s = true -> forall e c k cond,
+  e < length s -> k < length s -> root_of s k = root_of s e -> family s e c ->
+  (sub_attr_selected s e c k cond = true <-> family s c k /\ cond = true).
+Proof. exact sub_attr_query. Qed.
+Print Assumptions C27_subclass_attribute_query.
+
 (* non-vacuity: a two-tree schema with a diamond is accepted; sample values *)
 Example C27_nonvacuous :
   valid s_diamond = true /\
